@@ -1191,6 +1191,10 @@ token * mmd_tokenize_string(mmd_engine * e, size_t start, size_t len, bool stop_
 					} else if (line->type != LINE_META) {
 						e->allow_meta = false;
 					}
+				} else if (e->allow_meta && (root->child->type == LINE_YAML) &&
+						   (root->child->next == line) && (line->type != LINE_META)) {
+					// A first line of dashes only opens metadata when a metadata line follows it
+					e->allow_meta = false;
 				} else if (e->allow_meta) {
 					switch (line->type) {
 						case LINE_SETEXT_2:
@@ -1208,6 +1212,8 @@ token * mmd_tokenize_string(mmd_engine * e, size_t start, size_t len, bool stop_
 						case LINE_FENCE_BACKTICK_START_3:
 						case LINE_FENCE_BACKTICK_START_4:
 						case LINE_FENCE_BACKTICK_START_5:
+						case LINE_START_COMMENT:
+						case LINE_STOP_COMMENT:
 							e->allow_meta = false;
 							break;
 
